@@ -602,7 +602,7 @@ func runRLPDiff() {
 		run.Count("rlp_ref_exhaustive_upto_bytes", 1)
 	}
 	// 2. structured inputs, canonical and deliberately non-canonical, every input into every target
-	nStruct := lib.Pick(30000, 2500000)
+	nStruct := lib.Pick(100000, 2500000)
 	lib.Parallel(nStruct/100, workers, func(blk int) {
 		c := &rlpCounts{}
 		for k := 0; k < 100; k++ {
